@@ -23,6 +23,7 @@ ELEM_TYPES = {
 }
 
 RETURN_TYPES = {
+    "Nexus.get": ["ValueNode"],
     "NexusFitter.minimizer.fget": ["MinimizerIMinuit", "MinimizerScipyOptimize"],
 }
 
